@@ -50,6 +50,8 @@ class Sched:
         self.rng_access = {}   # tid -> last vc at an RNG access
         self.obj_access = {}   # id(obj) -> {tid: last vc at a write}
         self.job_visible_ops = 0
+        self.hot = set()       # ids of shared objects a job thread has written in this execution
+        self.obj_reads = {}    # id(obj) -> {tid: last vc at a read}
         self.creators = {}     # id(obj) -> creating thread (objects created during this execution)
         self.keep = []         # strong references, so that ids are not reused within one execution
 
@@ -88,11 +90,29 @@ class Sched:
         if tid is None:
             return
         now = self._tick(tid)
-        acc = self.obj_access.setdefault(id(obj), {})
+        acc = self.obj_access.setdefault((id(obj), what), {})
         for other, vc in acc.items():
             if other != tid and not self._leq(vc, now):
                 self.races.append(f"{type(obj).__name__}.{what} written by {tid} concurrently with a write by {other}")
+        for other, vc in self.obj_reads.get((id(obj), what), {}).items():
+            if other != tid and not self._leq(vc, now):
+                self.races.append(f"{type(obj).__name__}.{what} written by {tid} concurrently with a read by {other}")
         acc[tid] = now
+        if tid != "main":
+            self.hot.add(id(obj))
+
+    def record_read(self, obj, what):
+        """Reads are recorded only for objects some job thread has written in this execution (the only ones for which
+        an unordered read matters); a read that precedes the first write is caught from the write's side only if it
+        was recorded, so reads of shared objects by the main thread are recorded from the start (see watch_class)."""
+        tid = self.me()
+        if tid is None:
+            return
+        now = dict(self.recs[tid]["vc"])
+        for other, vc in self.obj_access.get((id(obj), what), {}).items():
+            if other != tid and not self._leq(vc, now):
+                self.races.append(f"{type(obj).__name__}.{what} read by {tid} concurrently with a write by {other}")
+        self.obj_reads.setdefault((id(obj), what), {})[tid] = now
 
     # ---------------------------------------------------------------- scheduling core
     def enabled(self, finished=None):
@@ -338,6 +358,9 @@ def controlled_wait(fs, timeout=None, return_when="ALL_COMPLETED"):
 # --------------------------------------------------------------------------- installation
 
 _installed = {"done": False, "orig": {}}
+# plain data attributes whose reads are recorded for the happens-before monitor (scalars that the code reads while
+# drawing samples or aligning; containers are handled by the mutator / traced-container hooks)
+READ_ATTRS = {"Continuum": ("best_window_size", "bound_inf", "bound_sup", "uri")}
 _RNG_FUNCS = ("normal", "uniform", "choice", "random", "randint", "seed", "rand", "randn", "shuffle", "permutation",
               "random_sample", "sample", "standard_normal")
 
@@ -430,6 +453,19 @@ def install():
             orig_setattr(self, name, value)
         cls.__init__ = __init__
         cls.__setattr__ = __setattr__
+        watched_reads = READ_ATTRS.get(cls.__name__, ())
+        if watched_reads:
+            orig_getattribute = cls.__getattribute__
+
+            def __getattribute__(self, name):
+                if name in watched_reads:
+                    s = active()
+                    if s is not None and not s.abort:
+                        me = s.me()
+                        if me is not None:
+                            s.record_read(self, name)
+                return orig_getattribute(self, name)
+            cls.__getattribute__ = __getattribute__
         for m in mutators:
             orig_m = getattr(cls, m)
 
